@@ -39,10 +39,10 @@ def retyped(B, L, R):
 
 
 def classify_triple(B, L, R):
-    """Classifier for fingerprints: 'upgrade|' when exactly one side moved a pre-4.5 notebook to 4.5 (ids added) while the other
-    side still works in the id-less format; 'retype|' when a side changes a cell's type in place; '' otherwise."""
+    """Classifier for fingerprints: 'upgrade|' when a side moved a pre-4.5 base to 4.5 (ids added) - the other side either still works in the id-less
+    format or upgraded independently (and so gave the same cells other ids); 'retype|' when a side changes a cell's type in place; '' otherwise."""
     mb, ml, mr = B['nbformat_minor'], L['nbformat_minor'], R['nbformat_minor']
-    if mb < 5 and (ml >= 5) != (mr >= 5):
+    if mb < 5 and (ml >= 5 or mr >= 5):
         return 'upgrade|'
     return 'retype|' if retyped(B, L, R) else ''
 
